@@ -17,6 +17,8 @@ import Rustic.Lemmas.LockNet
 import Rustic.Lemmas.PruneOrder
 import Rustic.Lemmas.IndexerLock
 import Rustic.Lemmas.ActorListed
+import Rustic.Lemmas.RestoreGroups
+import Rustic.Lemmas.RestoreTasks
 namespace Rustic.Props.C13
 open Rustic.Tree Rustic.Parent Rustic.Archive
 
@@ -437,6 +439,67 @@ theorem snapshot_is_function_of_source (H : List Node → Id) (hash : RoundTrip.
         subst ht
         simpa using hh
 
+section RestoreLayout
+open Rustic.RestoreGroups
+
+/-- (restore, pack boundaries) `restore_contents` as it is (`PackInfo::coalesce` with the guard `self.from_file.is_none()`):
+for EVERY list of `RestoreInfo` entries, every content of the pack files, every decoding function and every coalescing
+relation `adj` that only joins a group with an entry behind it (`BlobLocations::can_coalesce` for any hole size and read
+limit is one: `canCoalesce_ok`) — i.e. for all pack layouts and all coalescing decisions the guard allows — the writes handed
+to the writer tasks are, entry by entry, the entry's non-matching file locations with the CONTENT OF THAT BLOB.  The right
+side names no pack boundary: where a blob is stored, which blobs are its neighbours and what is read in one go do not enter.
+Hypothesis `Faithful`: what is read from an existing file at a location that `matches` is the blob's content (that is what
+`blob_matches_reader` checked). -/
+theorem restore_writes_independent_of_pack_layout (adj : Group → Entry → Bool)
+    (hadj : ∀ g e, adj g e = true → g.off + g.len ≤ e.off) (packs : Nat → Bytes) (decode : Bytes → Bytes) (es : List Entry)
+    (hf : ∀ e ∈ es, Faithful packs decode e) :
+    writes guardSelf adj packs decode es = es.flatMap fun e => writesTo e.dests (content packs decode e) :=
+  writes_eq adj hadj packs decode es hf
+
+/-- two repositories holding the same blobs in different pack layouts (other pack files, offsets, neighbours, other hole
+size / read limit): entry lists that agree in the dests and in the blob contents produce the same writes -/
+theorem restore_same_for_all_pack_layouts (h₁ l₁ h₂ l₂ : Nat) (packs₁ packs₂ : Nat → Bytes) (decode : Bytes → Bytes)
+    (es₁ es₂ : List Entry) (hf₁ : ∀ e ∈ es₁, Faithful packs₁ decode e) (hf₂ : ∀ e ∈ es₂, Faithful packs₂ decode e)
+    (hsame : es₁.map (fun e => (e.dests, content packs₁ decode e)) = es₂.map (fun e => (e.dests, content packs₂ decode e))) :
+    writes guardSelf (canCoalesce h₁ l₁) packs₁ decode es₁ = writes guardSelf (canCoalesce h₂ l₂) packs₂ decode es₂ := by
+  rw [writes_eq _ (canCoalesce_ok h₁ l₁) packs₁ decode es₁ hf₁, writes_eq _ (canCoalesce_ok h₂ l₂) packs₂ decode es₂ hf₂]
+  have e : ∀ (packs : Nat → Bytes) (es : List Entry), es.flatMap (entryWrites packs decode) =
+      (es.map (fun e => (e.dests, content packs decode e))).flatMap (fun p => writesTo p.1 p.2) := by
+    intro packs es
+    induction es with
+    | nil => rfl
+    | cons a rest ih => simp only [List.flatMap_cons, List.map_cons, ih]; rfl
+  rw [e packs₁ es₁, e packs₂ es₂, hsame]
+
+/-- blob X (pack 0, offset 0) is found in an existing file and is still needed at (file 1, 0); blob Y is needed at (file 1, 1) -/
+def layoutX : Entry := { pack := 0, off := 0, len := 1, fromFile := some [1], dests := [(1, 0)] }
+
+/-- **the guard on the other operand makes the result depend on the pack layout** (the seeded change C13-7:
+`other.from_file.is_none()`): Y stored directly behind X in the same pack (default pack size) is written with X's bytes; Y in a
+pack of its own (one blob per pack) is written correctly; the code's guard gives the correct writes for both layouts. -/
+theorem guard_on_other_depends_on_pack_layout :
+    let adj := canCoalesce 262144 41943040
+    let same : List Entry := [layoutX, { pack := 0, off := 1, len := 1, fromFile := none, dests := [(1, 1)] }]
+    let own : List Entry := [layoutX, { pack := 1, off := 0, len := 1, fromFile := none, dests := [(1, 1)] }]
+    let packsSame : Nat → Bytes := fun _ => [1, 2]
+    let packsOwn : Nat → Bytes := fun p => if p = 0 then [1] else [2]
+    writes guardOther adj packsSame id same = [⟨1, 0, [1]⟩, ⟨1, 1, [1]⟩] ∧
+    writes guardOther adj packsOwn id own = [⟨1, 0, [1]⟩, ⟨1, 1, [2]⟩] ∧
+    writes guardSelf adj packsSame id same = [⟨1, 0, [1]⟩, ⟨1, 1, [2]⟩] ∧
+    writes guardSelf adj packsOwn id own = [⟨1, 0, [1]⟩, ⟨1, 1, [2]⟩] := by decide
+
+end RestoreLayout
+
+/-- (restore, per file) the writer tasks of one file may run in any order (they write to disjoint ranges): with the writes of
+`restore_writes_independent_of_pack_layout` the file content is a function of the file's blob list, the blob contents and the
+existing destination file only (`Lemmas/RestoreTasks.lean`, shared with C14). -/
+theorem restore_file_any_task_order (o : Rustic.Restore.Opts) (fresh : Bool) (m : Option Rustic.Restore.Bytes)
+    (blobs : List Rustic.Restore.Bytes) (old : Option Rustic.Restore.Bytes) (ts : List Rustic.Restore.Task)
+    (hp : ts.Perm (Rustic.Restore.tasks o fresh m 0 blobs)) :
+    Rustic.Restore.runTasks old fresh blobs.flatten.length ts =
+      Rustic.Restore.runTasks old fresh blobs.flatten.length (Rustic.Restore.tasks o fresh m 0 blobs) :=
+  Rustic.Restore.runTasks_any_order o fresh m blobs old ts hp
+
 /-! ### Non-vacuity -/
 
 open Rustic.Streamer in
@@ -487,6 +550,16 @@ example : (runActs ⟨none, 2, 2⟩ (wideDir 3) (init [0])
 /-- the losing events under the locked protocol: writer 1's add waits (not enabled while writer 0 saves); all added packs listed -/
 example : (IndexerLock.run true 2 {} IndexerLock.losing).added = [3, 1] ∧
     IndexerLock.finalize (IndexerLock.run true 2 {} IndexerLock.losing) = [[3], [1]] := by decide
+
+open Rustic.RestoreGroups in
+/-- three blobs of one pack read in one go (the middle one also found in an existing file), a fourth beyond the hole limit:
+two groups, every dest gets its own blob -/
+example : writes guardSelf (canCoalesce 2 100) (fun _ => [10, 11, 12, 13, 14, 15, 16, 17, 18, 19]) id
+    [⟨0, 0, 2, none, [(0, 0), (1, 4)]⟩, ⟨0, 2, 1, some [12], [(1, 0)]⟩, ⟨0, 4, 1, none, [(0, 2)]⟩, ⟨0, 8, 2, none, [(2, 0)]⟩] =
+    [⟨0, 0, [10, 11]⟩, ⟨1, 4, [10, 11]⟩, ⟨1, 0, [12]⟩, ⟨0, 2, [14]⟩, ⟨2, 0, [18, 19]⟩] ∧
+    (coalesceAll guardSelf (canCoalesce 2 100)
+      [⟨0, 0, 2, none, [(0, 0), (1, 4)]⟩, ⟨0, 2, 1, some [12], [(1, 0)]⟩, ⟨0, 4, 1, none, [(0, 2)]⟩, ⟨0, 8, 2, none, [(2, 0)]⟩]).length = 2 := by
+  decide
 
 /-- writing is delayed behind three flushes: everything is indexed at finalize -/
 example : (finalizeAll (runEvs { typed := true }
